@@ -257,11 +257,26 @@ theorem obs_sim (S : Sim φ ψ DS DN DU DI) (fuel : Nat) (k : Int) (ops : List (
     exact ⟨rfl, rfl⟩
 end Obs
 
-/-- a history whose objects all have non-empty bounds inside the box is inside the domain of the simulation -/
-theorem opDom_of_opOK (bounds : Nat → Rect Int64) (hb : ∀ i, DItem (bounds i)) (op : Op (Rect Int64))
+/-- what an object's bounds may be for the transfer: a non-empty rectangle inside the box, or an `Empty` one (which
+    `Insert` ignores) that does not wrap -/
+def DBounds (r : Rect Int64) : Prop := (r.empty = true ∧ Safe r) ∨ DItem r
+
+theorem DBounds.safe {r : Rect Int64} (h : DBounds r) : Safe r := by
+  rcases h with h | h
+  · exact h.2
+  · exact h.safe
+
+/-- a history whose objects all have such bounds is inside the domain of the simulation -/
+theorem opDom_of_opOK (bounds : Nat → Rect Int64) (hb : ∀ i, DBounds (bounds i)) (op : Op (Rect Int64))
     (h : OpOK bounds op) : OpDom Safe DItem op := by
   cases op with
-  | insert it => exact Or.inr (by rw [show it.rect = bounds it.id from h]; exact hb _)
+  | insert it =>
+    have e0 : it.rect = bounds it.id := h
+    show RectOps.empty it.rect = true ∨ DItem it.rect
+    rw [e0]
+    rcases hb it.id with e | e
+    · exact Or.inl e.1
+    · exact Or.inr e
   | remove id b => show Safe b; rw [show b = bounds id from h]; exact (hb id).safe
   | reorganize => trivial
   | clear => trivial
